@@ -34,6 +34,11 @@ func init() {
 			}},
 			{"C16.lister-done", "a listing the context can stop is not taken for complete (shared with C07)", 1, c07ListerDone},
 			{"C16.verify", "verify removes exactly the invalid chunks, only with repair", 3, c16Verify},
+			{"C16.commands-propagate", "the prune and verify commands fail when Prune/Verify fails or is interrupted: success is reported only for a completed run (shared with C07)", 2, func(c *Ctx) {
+				c.onlyCmds = map[string]bool{"cmd.runPrune": true, "cmd.runVerify": true}
+				defer func() { c.onlyCmds = nil }()
+				c07CommandsPropagate(c)
+			}},
 			{"C16.canonical-place", "local Verify and Prune treat a file as a chunk only where the store keeps that chunk (stray files with chunk-like names are left alone)", 2, c16CanonicalPlace},
 		},
 	})
